@@ -485,6 +485,7 @@ int dns_decode(char *buf, size_t buflen, struct query *q, qr_t qr, char *packet,
 			readshort(packet, &data, &class);
 			readlong(packet, &data, &ttl);
 			readshort(packet, &data, &rlen);
+			CHECKLEN(rlen);
 
 			rv = MIN(rlen, sizeof(rdata));
 			rv = readdata(packet, &data, rdata, rv);
@@ -503,6 +504,7 @@ int dns_decode(char *buf, size_t buflen, struct query *q, qr_t qr, char *packet,
 			readshort(packet, &data, &class);
 			readlong(packet, &data, &ttl);
 			readshort(packet, &data, &rlen);
+			CHECKLEN(rlen);
 
 			if (type == T_CNAME) {
 				/* For tunnels, query type A has CNAME type answer */
@@ -594,6 +596,7 @@ int dns_decode(char *buf, size_t buflen, struct query *q, qr_t qr, char *packet,
 			readshort(packet, &data, &class);
 			readlong(packet, &data, &ttl);
 			readshort(packet, &data, &rlen);
+			CHECKLEN(rlen);
 
 			rv = readtxtbin(packet, &data, rlen, rdata,
 				        sizeof(rdata));
